@@ -599,6 +599,35 @@ func checkTypeAssertTemplate(c *Ctx, p *packages.Package) {
 		}
 		return true
 	})
+	// the nil-check-only fast path (eq = tx != nil) is valid only for the operand's OWN static type: the value keeps
+	// its itab, whose method slots are laid out for that type.  Its condition must be type identity, nothing wider.
+	ast.Inspect(fd.Body, func(n ast.Node) bool {
+		is, ok := n.(*ast.IfStmt)
+		if !ok {
+			return true
+		}
+		fast := false
+		for _, st := range is.Body.List {
+			if as, ok := st.(*ast.AssignStmt); ok && len(as.Lhs) == 1 && exprStr(as.Lhs[0]) == "eq" {
+				if name, a, ok := v.call(as.Rhs[0]); ok && name == "ssa.Builder.BinOp" && v.constName(a[0]) == "go/token.NEQ" {
+					fast = true
+				}
+			}
+		}
+		if !fast {
+			return true
+		}
+		x, y, op, isCmp := binCmp(is.Cond)
+		okCond := isCmp && op == token.EQL && strings.HasSuffix(exprStr(x), ".RawType()") && strings.HasSuffix(exprStr(y), ".RawType()")
+		if call, isCall := ast.Unparen(is.Cond).(*ast.CallExpr); isCall {
+			if f := calleeOf(p.TypesInfo, call); f != nil && qualName(f) == "go/types.Identical" {
+				okCond = true
+			}
+		}
+		c.Check(okCond, "R03.2", "ssa.TypeAssert nil-check-only path is limited to the operand's own type", is.Pos(), "x.RawType() == assertedTyp.RawType()",
+			"the fast path that keeps the operand's itab is taken under "+exprStr(is.Cond)+": for any other interface type the method slots differ, so a call through the asserted value runs the wrong method")
+		return true
+	})
 	want := []string{"BinOp(go/token.NEQ,tx)", "Implements(tabi,tx)", "MatchesClosure(tabi,tx)", "BinOp(go/token.EQL,tx)"}
 	c.Check(strings.Join(kinds, " ") == strings.Join(want, " "), "R03.2", "ssa.TypeAssert success predicate", fd.Pos(), strings.Join(want, " | "), "success predicates are "+strings.Join(kinds, " | "))
 }
